@@ -39,7 +39,8 @@ def main():
     try:
         for p in props + extra:
             t0 = time.time()
-            r = sh(["python3", os.path.join(V, "tools", "check.py"), p, "--tier", tier], cwd=V)
+            r = sh(["python3", os.path.join(V, "tools", "check.py"), p, "--tier", tier], cwd=V,
+                   env=dict(os.environ, VERIF_SHRINK_ROUNDS=os.environ.get("VERIF_SHRINK_ROUNDS", "2")))
             out = r.stdout.decode()
             vio = [l for l in out.split("\n") if l.startswith("VIOLATION")]
             clauses = []
